@@ -40,67 +40,131 @@ type equalGuard struct {
 	form  string
 }
 
+// eqTest is a recognised "the two byte strings are equal" test, in the frame of the function
+// that evaluates it: the expression the leaf accessor is called on, the accessor, the other
+// operand.
+type eqTest struct {
+	leaf  ast.Expr
+	form  string
+	other ast.Expr
+}
+
+// resolveEq recognises, for the outcome val of expression e,
+//
+//	bytes.Equal(a, b) / slices.Equal(a, b)          (true)
+//	bytes.Compare(a, b) == 0                        (true; != 0 false)
+//	string(a) == string(b)                          (true; != false)
+//	a boolean local bound once to one of them, a negation of one of them,
+//	and a library helper, method or closure whose result is one of them (leaf.hasKey(k),
+//	leafHasKey(ptr, k)) – operands traced back to the caller's expressions.
+func (c *Ctx) resolveEq(u *FuncUnit, e ast.Expr, val bool, depth int) []eqTest {
+	info := c.m.Info
+	if depth > 4 {
+		return nil
+	}
+	e = ast.Unparen(c.m.throughLocals(u, e))
+	var args []ast.Expr
+	switch x := e.(type) {
+	case *ast.UnaryExpr:
+		if x.Op == token.NOT {
+			return c.resolveEq(u, x.X, !val, depth+1)
+		}
+	case *ast.CallExpr:
+		name := c.m.calleeName(x)
+		if (name == "bytes.Equal" || name == "slices.Equal") && len(x.Args) == 2 {
+			if val {
+				args = x.Args
+			}
+			break
+		}
+		if isConversion(info, x) {
+			break
+		}
+		cu := c.m.calleeUnit(x)
+		if cu == nil || cu.Body == nil {
+			break
+		}
+		rets, all := returnExprs(cu)
+		if !all || len(rets) != 1 {
+			break
+		}
+		var out []eqTest
+		for _, t := range c.resolveEq(cu, rets[0], val, depth+1) {
+			back := func(pe ast.Expr) ast.Expr {
+				inner := ast.Unparen(c.m.throughLocals(cu, pe))
+				for {
+					if cv, ok := inner.(*ast.CallExpr); ok && isConversion(info, cv) && len(cv.Args) == 1 {
+						inner = ast.Unparen(c.m.throughLocals(cu, cv.Args[0]))
+						continue
+					}
+					break
+				}
+				if id, ok := inner.(*ast.Ident); ok {
+					if a := argFor(x, c.m.paramIndex(cu, id)); a != nil {
+						return a
+					}
+				}
+				return nil
+			}
+			l, o := back(t.leaf), back(t.other)
+			if o == nil {
+				continue
+			}
+			out = append(out, eqTest{leaf: l, form: t.form, other: o})
+		}
+		return out
+	case *ast.BinaryExpr:
+		eq := (x.Op == token.EQL && val) || (x.Op == token.NEQ && !val)
+		if !eq {
+			break
+		}
+		if cc, ok := ast.Unparen(x.X).(*ast.CallExpr); ok && c.m.calleeName(cc) == "bytes.Compare" && len(cc.Args) == 2 {
+			if tv, has := info.Types[x.Y]; has && tv.Value != nil && tv.Value.ExactString() == "0" {
+				args = cc.Args
+			}
+		}
+		lc, ok1 := ast.Unparen(x.X).(*ast.CallExpr)
+		rc, ok2 := ast.Unparen(x.Y).(*ast.CallExpr)
+		if ok1 && ok2 && isConversion(info, lc) && isConversion(info, rc) && len(lc.Args) == 1 && len(rc.Args) == 1 {
+			if b, ok := info.TypeOf(lc).Underlying().(*types.Basic); ok && b.Info()&types.IsString != 0 {
+				args = []ast.Expr{lc.Args[0], rc.Args[0]}
+			}
+		}
+	}
+	if len(args) != 2 {
+		return nil
+	}
+	var out []eqTest
+	for _, perm := range [][2]int{{0, 1}, {1, 0}} {
+		st := ast.Unparen(c.m.throughLocals(u, args[perm[0]]))
+		sc, ok := st.(*ast.CallExpr)
+		if !ok {
+			continue
+		}
+		sel, ok := sc.Fun.(*ast.SelectorExpr)
+		if !ok || len(sc.Args) != 0 {
+			continue
+		}
+		out = append(out, eqTest{leaf: sel.X, form: sel.Sel.Name, other: args[perm[1]]})
+	}
+	return out
+}
+
 func (c *Ctx) equalGuards(u *FuncUnit) []equalGuard {
 	info := c.m.Info
 	probe := c.e.probeKeys()
 	var out []equalGuard
 	for _, g := range guardsOf(info, c.m.cfgOf(u)) {
-		// recognised forms of "the two byte strings are equal":
-		//   bytes.Equal(a, b) / slices.Equal(a, b)          (true edge)
-		//   bytes.Compare(a, b) == 0                        (true edge; != 0 false edge)
-		//   string(a) == string(b)                          (true edge; != false edge)
-		var args []ast.Expr
-		atomExpr := ast.Unparen(g.atom.e)
-		if v := identVar(info, atomExpr); v != nil {
-			// if same := bytes.Equal(…); same { … }
-			if def := singleDef(info, u.Body, v); def != nil {
-				atomExpr = ast.Unparen(def)
-			}
-		}
-		switch x := atomExpr.(type) {
-		case *ast.CallExpr:
-			name := c.m.calleeName(x)
-			if g.atom.val && (name == "bytes.Equal" || name == "slices.Equal") && len(x.Args) == 2 {
-				args = x.Args
-			}
-		case *ast.BinaryExpr:
-			eq := (x.Op == token.EQL && g.atom.val) || (x.Op == token.NEQ && !g.atom.val)
-			if !eq {
-				break
-			}
-			if cc, ok := ast.Unparen(x.X).(*ast.CallExpr); ok && c.m.calleeName(cc) == "bytes.Compare" && len(cc.Args) == 2 {
-				if tv, has := info.Types[x.Y]; has && tv.Value != nil && tv.Value.ExactString() == "0" {
-					args = cc.Args
-				}
-			}
-			lc, ok1 := ast.Unparen(x.X).(*ast.CallExpr)
-			rc, ok2 := ast.Unparen(x.Y).(*ast.CallExpr)
-			if ok1 && ok2 && isConversion(info, lc) && isConversion(info, rc) && len(lc.Args) == 1 && len(rc.Args) == 1 {
-				if b, ok := info.TypeOf(lc).Underlying().(*types.Basic); ok && b.Info()&types.IsString != 0 {
-					args = []ast.Expr{lc.Args[0], rc.Args[0]}
-				}
-			}
-		}
-		if len(args) != 2 {
-			continue
-		}
-		call := &ast.CallExpr{Args: args}
-		for _, perm := range [][2]int{{0, 1}, {1, 0}} {
-			st, pk := ast.Unparen(call.Args[perm[0]]), ast.Unparen(call.Args[perm[1]])
-			sc, ok := st.(*ast.CallExpr)
-			if !ok {
+		for _, t := range c.resolveEq(u, g.atom.e, g.atom.val, 0) {
+			pv := identVar(info, t.other)
+			if pv == nil || !probe[pv] {
 				continue
 			}
-			sel, ok := sc.Fun.(*ast.SelectorExpr)
-			if !ok {
-				continue
+			var lv *types.Var
+			if t.leaf != nil {
+				lv = identVar(info, t.leaf)
 			}
-			lv := identVar(info, sel.X)
-			pv := identVar(info, pk)
-			if lv == nil || pv == nil || !probe[pv] {
-				continue
-			}
-			out = append(out, equalGuard{g: g, leaf: lv, probe: pv, form: sel.Sel.Name})
+			out = append(out, equalGuard{g: g, leaf: lv, probe: pv, form: t.form})
 		}
 	}
 	return out
@@ -159,12 +223,12 @@ func ruleR02(c *Ctx) {
 					}
 					// the compared variables must not change between the comparison and the event
 					between := reachable(eg.g.b.Succs[eg.g.succ])
-					if assignedIn(info, between, eg.leaf) || assignedIn(info, between, eg.probe) {
+					if (eg.leaf != nil && assignedIn(info, between, eg.leaf)) || assignedIn(info, between, eg.probe) {
 						why = "compared variable is reassigned after the comparison"
 						continue
 					}
 					c.r.ok("R02", key, c.m.pos(node.Pos()),
-						fmt.Sprintf("dominated by the true edge of bytes.Equal(%s.%s(), %s) at %s", eg.leaf.Name(), eg.form, eg.probe.Name(), c.m.pos(eg.g.atom.e.Pos())), props...)
+						fmt.Sprintf("dominated by the successful comparison of the stored %s() with %s at %s", eg.form, eg.probe.Name(), c.m.pos(eg.g.atom.e.Pos())), props...)
 					return
 				}
 				if why == "" {
